@@ -51,6 +51,8 @@ structure Parameter (α : Type) where
   stderr : Ext α
   deriving Repr, Inhabited
 
+deriving instance DecidableEq for Parameter
+
 variable {α : Type}
 
 /-- validator `set_transformed_expression`: a truthy (non-empty) expression forces `vary = False` -/
@@ -223,6 +225,85 @@ def assignStdErrs [Num α] (ps : List (Parameter α)) (labels : List String) (er
     List (Parameter α) :=
   (labels.zip errs).foldl (fun acc le => seOne acc le.1 le.2) ps
 
+/-! ### look-up (`Parameters.has`, `Parameters.get`) -/
+
+/-- `Parameters.has(label)`: `label in self._parameters` — full labels only; a group path such as
+    `rates` is not a label unless a parameter is declared under exactly that label -/
+def hasLabel (ps : List (Parameter α)) (l : String) : Bool := ps.any (fun q => q.label = l)
+
+/-- `Parameters.get(label)`; `none` = ParameterNotFoundException(label) -/
+def getLabel (ps : List (Parameter α)) (l : String) : Option (Parameter α) :=
+  ps.find? (fun q => q.label = l)
+
+/-! ### copies, dictionaries, equality -/
+
+/-- `Parameter.copy()` = `attrs.evolve(self)` = `Parameter(**as_dict)`: a new object is initialised from
+    the eight attributes and the validators run again, i.e. a truthy expression forces `vary = False`
+    once more (a parameter whose `vary` was re-enabled by assignment is not copied faithfully) -/
+def Parameter.copy (p : Parameter α) : Parameter α := Parameter.setExpr p p.expr
+
+/-- `Parameters.copy()`: every parameter copied, then `Parameters.__init__` updates the expressions -/
+def copyParams (ev : Eval α) (ps : List (Parameter α)) : List (Parameter α) :=
+  updateExpr ev (ps.map Parameter.copy)
+
+/-- `to_parameter_dict_list()`: `as_dict()` of every parameter — the eight attributes, in order -/
+def toDictList (ps : List (Parameter α)) : List (Parameter α) := ps
+
+/-- `from_parameter_dict_list(dicts)`: `Parameter(**d)` for every dictionary (validators run), then
+    `Parameters.__init__` -/
+def fromDictList (ev : Eval α) (ds : List (Parameter α)) : List (Parameter α) :=
+  updateExpr ev (ds.map Parameter.copy)
+
+/-- `Parameter._deep_equals`: `nan_or_equal` on all eight attributes (`nan` equals `nan`; in the model
+    that is structural equality of `Ext`) -/
+def deepEquals [DecidableEq α] (p q : Parameter α) : Bool :=
+  p.label == q.label && p.value == q.value && p.stderr == q.stderr && p.expr == q.expr &&
+    p.max == q.max && p.min == q.min && p.nonNeg == q.nonNeg && p.vary == q.vary
+
+/-- `Parameters.__eq__`: `self.labels == other.labels` on the *sorted* label lists — i.e. the two label
+    lists are permutations of each other — and every parameter deep-equal to the one with the same
+    label; declaration order does not take part -/
+def paramsEq [DecidableEq α] (ps qs : List (Parameter α)) : Bool :=
+  (ps.map (·.label)).isPerm (qs.map (·.label)) &&
+    (ps.map (·.label)).all (fun l =>
+      match getLabel ps l, getLabel qs l with
+      | some p, some q => deepEquals p q
+      | _, _ => false)
+
+/-! ### `ParameterHistory`: access by index, data frames -/
+
+/-- `number_of_records` / `len(history)` -/
+def History.numberOfRecords (h : History α) : Nat := h.rows.length
+
+/-- a Python list indexed with a Python `int` (negative = from the end); `none` = IndexError -/
+def pyIndex {β : Type} (xs : List β) (i : Int) : Option β :=
+  if 0 ≤ i then xs[i.toNat]? else
+    if (-i).toNat ≤ xs.length then xs[xs.length - (-i).toNat]? else none
+
+/-- `get_parameters(index)` -/
+def History.getParameters (h : History α) (i : Int) : Option (List (Ext α)) := pyIndex h.rows i
+
+/-- `to_dataframe()`: columns = the labels, one row per record -/
+def History.toDataFrame (h : History α) : List String × List (List (Ext α)) := (h.labels, h.rows)
+
+/-- `from_dataframe(df)` -/
+def History.fromDataFrame (df : List String × List (List (Ext α))) : History α := ⟨df.1, df.2⟩
+
+/-- `Parameters.set_from_history(history, index)` with a Python index; `none` = IndexError -/
+def setFromHistoryAt [Num α] (ev : Eval α) (ps : List (Parameter α)) (h : History α) (i : Int) :
+    Option (List (Parameter α) × SetStatus) :=
+  match h.getParameters i with
+  | some row => some (setFromArrays ev ps (h.labels.drop 1) (row.drop 1))
+  | none => none
+
+/-- a run of `append`s starting from a history -/
+def History.appendAll [Num α] (ev : Eval α) : History α → List (List (Parameter α) × Ext α) → Option (History α)
+  | h, [] => some h
+  | h, (ps, it) :: rest =>
+    match h.append ev ps it with
+    | some h' => History.appendAll ev h' rest
+    | none => none
+
 /-! ### executable instance: free terms over exact rationals -/
 
 inductive Term where
@@ -236,6 +317,8 @@ inductive Term where
   | ifEq (a b c d : Term)
   | ifLt (a b c d : Term)
   deriving Repr, Inhabited
+
+deriving instance DecidableEq for Term
 
 instance : Num Term where
   ofRat := .q
@@ -405,6 +488,46 @@ def driverStep (s : Unit) (ts : List Tree) : Unit × String :=
       if ps.any (fun p => p.nonNeg && ls.contains p.label &&
           (match p.value with | .fin _ => false | _ => true)) then some "unmodelled" else
       some s!"stderr {showParams (assignStdErrs ps ls errs)}"
+    | [.atom "has", pst, l] => do
+      let ps ← parseParams pst
+      some s!"has {showBool (hasLabel ps (← l.str?))}"
+    | [.atom "get", pst, l] => do
+      let ps ← parseParams pst
+      let l ← l.str?
+      match getLabel ps l with
+      | some p => some s!"get {showParam p}"
+      | none => some s!"get notfound:{encodeStr l}"
+    | [.atom "copy", pst, tab] => do
+      let ps ← parseParams pst
+      let table ← parseTable tab
+      if !evaluable table ps [] then none else
+      some s!"copy {showParams (copyParams (evOf table) ps)}"
+    | [.atom "dictlist", pst, tab] => do
+      let ps ← parseParams pst
+      let table ← parseTable tab
+      if !evaluable table ps [] then none else
+      some s!"dictlist {showParams (fromDictList (evOf table) (toDictList ps))}"
+    | [.atom "eq", pst, qst] => do
+      let ps ← parseParams pst
+      let qs ← parseParams qst
+      some s!"eq {showBool (paramsEq ps qs)}"
+    | [.atom "histget", hl, rows, i] => do
+      let rows ← Tree.listOf? (Tree.listOf? parseExt) rows
+      let h : History Term := History.fromDataFrame (← hl.strs?, rows)
+      let df := h.toDataFrame
+      match h.getParameters (← i.int?) with
+      | some row => some s!"histget {h.numberOfRecords} {showStrs df.1} {showExts row}"
+      | none => some s!"histget {h.numberOfRecords} {showStrs df.1} indexerror"
+    | [.atom "fromhistoryat", pst, tab, hl, rows, i] => do
+      let ps ← parseParams pst
+      let table ← parseTable tab
+      let rows ← Tree.listOf? (Tree.listOf? parseExt) rows
+      let i ← i.int?
+      let h : History Term := ⟨← hl.strs?, rows⟩
+      if !evaluable table ps ((h.getParameters i).getD []) then none else
+      match setFromHistoryAt (evOf table) ps h i with
+      | some r => some s!"set {showStatus r.2} {showParams r.1}"
+      | none => some "set indexerror"
     | _ => none
   (s, out.getD "bad-op")
 
